@@ -426,7 +426,9 @@ def _func_run(desc, fail, obs, mech, clean):
                 obs.count("exceptions_wrapped")
         check_after(obs, mech, snap0, objs, reg, dbg0, label)
         obs.count("restore_events", reg.restores)
-        obs.counters["max_substitution_depth"] = max(obs.counters.get("max_substitution_depth", 0), reg.maxdepth)
+        obs.obs["max_substitution_depth"] = max(obs.obs.get("max_substitution_depth", 0), reg.maxdepth)
+        if reg.maxdepth >= 2:
+            obs.count("runs_with_nested_substitution")
     if fail is not None:
         if spy.fired:
             obs.count("crash_points_reached")
@@ -747,7 +749,9 @@ def _nested_functional_run(desc, fail, obs, mech, clean):
                 obs.count("exceptions_replaced_by_secondary_error")
         check_after(obs, mech, snap0, objs, reg, dbg0, label)
         obs.count("restore_events", reg.restores)
-        obs.counters["max_substitution_depth"] = max(obs.counters.get("max_substitution_depth", 0), reg.maxdepth)
+        obs.obs["max_substitution_depth"] = max(obs.obs.get("max_substitution_depth", 0), reg.maxdepth)
+        if reg.maxdepth >= 2:
+            obs.count("runs_with_nested_substitution")
     if fail is not None:
         obs.count("crash_points_reached" if spy.fired else "crash_points_not_reached")
     return spy, None
